@@ -20,8 +20,13 @@ def main():
         from engine import selftest
         return selftest.main()
     prop = sys.argv[1].upper()
-    mod = importlib.import_module("checks." + prop.lower())
-    return mod.main(sys.argv[2:])
+    try:
+        mod = importlib.import_module("checks." + prop.lower())
+        return mod.main(sys.argv[2:])
+    except Exception:      # the harness itself failed (e.g. a function it binds to was moved): never a pass, never a VIOLATION
+        import traceback
+        print("HARNESS-ERROR: " + traceback.format_exc()[-1200:])
+        return 2
 
 
 if __name__ == "__main__":
